@@ -651,4 +651,845 @@ theorem length_takeWhile_le' {α} (p : α → Bool) (l : List α) : (l.takeWhile
     · simp only [List.length_cons]; omega
     · simp
 
+
+/-! ### directories as association lists with increasing file ids -/
+
+theorem FileId.lt_irrefl (a : FileId) : a.lt a = false := by simp [FileId.lt]
+
+theorem FileId.lt_trans {a b c : FileId} (h1 : a.lt b = true) (h2 : b.lt c = true) : a.lt c = true := by
+  simp only [FileId.lt, Bool.or_eq_true, decide_eq_true_eq, Bool.and_eq_true, beq_iff_eq] at *
+  omega
+
+theorem FileId.lt_asymm {a b : FileId} (h1 : a.lt b = true) : b.lt a = false := by
+  cases hb : b.lt a with
+  | false => rfl
+  | true =>
+    have := FileId.lt_trans h1 hb
+    rw [FileId.lt_irrefl] at this
+    exact absurd this (by simp)
+
+def IdsSorted (ids : List FileId) : Prop := ids.Pairwise (fun a b => a.lt b = true)
+
+theorem insertId_lt_all (f : FileId) (l : List FileId) (h : ∀ g ∈ l, f.lt g = true) (hs : IdsSorted l) : insertId f l = f :: l := by
+  cases l with
+  | nil => rfl
+  | cons g gs => simp [insertId, h g (by simp)]
+
+theorem foldr_insertId_sorted (l : List FileId) (h : IdsSorted l) : l.foldr insertId [] = l := by
+  induction l with
+  | nil => rfl
+  | cons a r ih =>
+    have hp := List.pairwise_cons.mp h
+    simp only [List.foldr_cons, ih hp.2]
+    exact insertId_lt_all a r hp.1 hp.2
+
+theorem ids_ne_of_sorted {a : FileId} {r : List FileId} (h : IdsSorted (a :: r)) : ∀ g ∈ r, g ≠ a := by
+  intro g hg e
+  have := (List.pairwise_cons.mp h).1 g hg
+  rw [e, FileId.lt_irrefl] at this
+  exact absurd this (by simp)
+
+/-- look-up in a directory listing built from the abstract files -/
+theorem get?_map {β} (al : List β) (idOf : β → FileId) (φ : β → Bytes) (hs : IdsSorted (al.map idOf)) (x : β) (hx : x ∈ al) :
+    Dir.get? (al.map (fun f => (idOf f, φ f))) (idOf x) = some (φ x) := by
+  induction al with
+  | nil => simp at hx
+  | cons a r ih =>
+    have hp := List.pairwise_cons.mp hs
+    rcases List.mem_cons.mp hx with e | e
+    · subst e; simp [Dir.get?]
+    · have hne : idOf a ≠ idOf x := by
+        intro h
+        have := hp.1 (idOf x) (List.mem_map.mpr ⟨x, e, rfl⟩)
+        rw [← h, FileId.lt_irrefl] at this
+        exact absurd this (by simp)
+      have := ih hp.2 e
+      simp only [Dir.get?, List.map_cons, List.find?] at this ⊢
+      simp only [hne, decide_false]
+      exact this
+
+theorem get?_none_of_not_mem {β} (al : List β) (idOf : β → FileId) (φ : β → Bytes) (x : FileId) (hx : x ∉ al.map idOf) :
+    Dir.get? (al.map (fun f => (idOf f, φ f))) x = none := by
+  induction al with
+  | nil => rfl
+  | cons a r ih =>
+    simp only [List.map_cons, List.mem_cons, not_or] at hx
+    have := ih hx.2
+    simp only [Dir.get?, List.map_cons, List.find?] at this ⊢
+    have hne : idOf a ≠ x := fun e => hx.1 e.symm
+    simp only [hne, decide_false]
+    exact this
+
+
+theorem erase_not_mem {β} (al : List β) (idOf : β → FileId) (φ : β → Bytes) (x : FileId) (hx : x ∉ al.map idOf) :
+    Dir.erase (al.map (fun f => (idOf f, φ f))) x = al.map (fun f => (idOf f, φ f)) := by
+  unfold Dir.erase
+  rw [List.filter_eq_self]
+  intro p hp
+  obtain ⟨f, hf, rfl⟩ := List.mem_map.mp hp
+  have : idOf f ≠ x := fun e => hx (List.mem_map.mpr ⟨f, hf, e⟩)
+  simpa using this
+
+theorem erase_head {β} (a : β) (r : List β) (idOf : β → FileId) (φ : β → Bytes) (hs : IdsSorted ((a :: r).map idOf)) :
+    Dir.erase ((a :: r).map (fun f => (idOf f, φ f))) (idOf a) = r.map (fun f => (idOf f, φ f)) := by
+  have hne : idOf a ∉ r.map idOf := by
+    intro h
+    exact ids_ne_of_sorted hs (idOf a) h rfl
+  have := erase_not_mem r idOf φ (idOf a) hne
+  unfold Dir.erase at this ⊢
+  simp only [List.map_cons, List.filter_cons, ne_eq, not_true_eq_false, decide_false, Bool.false_eq_true, if_false]
+  exact this
+
+theorem erase_take {β} (al : List β) (idOf : β → FileId) (φ : β → Bytes) (hs : IdsSorted (al.map idOf)) (k : Nat) :
+    ((al.take k).map idOf).foldl Dir.erase (al.map (fun f => (idOf f, φ f))) = (al.drop k).map (fun f => (idOf f, φ f)) := by
+  induction k generalizing al with
+  | zero => simp
+  | succ k ih =>
+    cases al with
+    | nil => simp
+    | cons a r =>
+      simp only [List.take_succ_cons, List.map_cons, List.foldl_cons, List.drop_succ_cons]
+      have := erase_head a r idOf φ hs
+      simp only [List.map_cons] at this
+      rw [this]
+      exact ih r (List.pairwise_cons.mp hs).2
+
+theorem applyAll_removes (fs : FS) (ids : List FileId) :
+    fs.applyAll (ids.flatMap (fun f => [Act.remove false f, Act.remove true f])) =
+      { logs := ids.foldl Dir.erase fs.logs, idxs := ids.foldl Dir.erase fs.idxs } := by
+  induction ids generalizing fs with
+  | nil => rfl
+  | cons a r ih =>
+    simp only [List.flatMap_cons, FS.applyAll, List.cons_append, List.nil_append, List.foldl_cons, FS.apply] at ih ⊢
+    rw [ih]
+
+theorem applyAll_append (fs : FS) (a b : List Act) : fs.applyAll (a ++ b) = (fs.applyAll a).applyAll b := by
+  simp [FS.applyAll, List.foldl_append]
+
+theorem append_last {β} (init : List β) (last : β) (idOf : β → FileId) (φ : β → Bytes) (hs : IdsSorted ((init ++ [last]).map idOf)) (bs x : Bytes) :
+    Dir.append (init.map (fun f => (idOf f, φ f)) ++ [(idOf last, x)]) (idOf last) bs =
+      init.map (fun f => (idOf f, φ f)) ++ [(idOf last, x ++ bs)] := by
+  unfold Dir.append
+  rw [List.map_append]
+  congr 1
+  · rw [List.map_map]
+    apply List.map_congr_left
+    intro f hf
+    have : idOf f ≠ idOf last := by
+      intro e
+      rw [List.map_append, IdsSorted, List.pairwise_append] at hs
+      have := hs.2.2 (idOf f) (List.mem_map.mpr ⟨f, hf, rfl⟩) (idOf last) (by simp)
+      rw [e, FileId.lt_irrefl] at this
+      exact absurd this (by simp)
+    simp [this]
+  · simp
+
+
+/-! ### the writer keeps the directory well-formed -/
+
+def AFile.new (id : FileId) : AFile := ⟨id, [], [], []⟩
+def logDir (al : List AFile) : Dir := al.map (fun f => (f.id, f.log))
+def idxDir (al : List AFile) : Dir := al.map (fun f => (f.id, f.idx))
+
+/-- the directory, file for file -/
+structure RepL (fs : FS) (al : List AFile) : Prop where
+  logs : fs.logs = logDir al
+  idxs : fs.idxs = idxDir al
+
+def dropCount (n maxFiles : Nat) : Nat := if n ≥ maxFiles then n - maxFiles + 1 else 0
+
+theorem listLogs_repL (fs : FS) (al : List AFile) (h : RepL fs al) (hs : IdsSorted (al.map (·.id))) : fs.listLogs = al.map (·.id) := by
+  unfold FS.listLogs
+  rw [h.logs, logDir, List.map_map]
+  exact foldr_insertId_sorted _ hs
+
+theorem sorted_le_last (l : List FileId) (hs : IdsSorted l) (x last : FileId) (hl : l.getLast? = some last) (hx : x ∈ l) :
+    x = last ∨ x.lt last = true := by
+  induction l with
+  | nil => simp at hx
+  | cons a r ih =>
+    have hp := List.pairwise_cons.mp hs
+    cases r with
+    | nil =>
+      simp only [List.getLast?_singleton, Option.some.injEq] at hl
+      simp only [List.mem_singleton] at hx
+      left; rw [hx, hl]
+    | cons b t =>
+      have hl' : (b :: t).getLast? = some last := by simpa [List.getLast?_cons_cons] using hl
+      rcases List.mem_cons.mp hx with e | e
+      · right
+        have hlast_mem : last ∈ b :: t := List.mem_of_getLast? hl'
+        rw [e]; exact hp.1 last hlast_mem
+      · exact ih hp.2 hl' e
+
+theorem nextFileId_gt (fs : FS) (al : List AFile) (h : RepL fs al) (hs : IdsSorted (al.map (·.id))) (day : Nat)
+    (hd : ∀ f ∈ al, f.id.day ≤ day) : (nextFileId fs day).day = day ∧ ∀ g ∈ al.map (·.id), g.lt (nextFileId fs day) = true := by
+  unfold nextFileId
+  rw [listLogs_repL fs al h hs]
+  have hsf : IdsSorted ((al.map (·.id)).filter (fun x => decide (x.day = day))) := List.Pairwise.filter _ hs
+  cases hl : ((al.map (·.id)).filter (fun x => decide (x.day = day))).getLast? with
+  | none =>
+    refine ⟨rfl, ?_⟩
+    intro g hg
+    have hnil : (al.map (·.id)).filter (fun x => decide (x.day = day)) = [] := by
+      simpa using hl
+    have hne : g.day ≠ day := by
+      intro e
+      have : g ∈ (al.map (·.id)).filter (fun x => decide (x.day = day)) := List.mem_filter.mpr ⟨hg, by simpa using e⟩
+      rw [hnil] at this; simp at this
+    obtain ⟨f, hf, rfl⟩ := List.mem_map.mp hg
+    have := hd f hf
+    simp only [FileId.lt, Bool.or_eq_true, decide_eq_true_eq]
+    left; omega
+  | some l =>
+    have hlmem := List.mem_of_getLast? hl
+    have hlday : l.day = day := by simpa using (List.mem_filter.mp hlmem).2
+    refine ⟨rfl, ?_⟩
+    intro g hg
+    obtain ⟨f, hf, rfl⟩ := List.mem_map.mp hg
+    have hle := hd f hf
+    by_cases e : f.id.day = day
+    · have hgm : f.id ∈ (al.map (·.id)).filter (fun x => decide (x.day = day)) := List.mem_filter.mpr ⟨hg, by simpa using e⟩
+      rcases sorted_le_last _ hsf f.id l hl hgm with h1 | h1
+      · simp only [FileId.lt, Bool.or_eq_true, decide_eq_true_eq, Bool.and_eq_true, beq_iff_eq]
+        right; rw [h1]; exact ⟨hlday, by omega⟩
+      · simp only [FileId.lt, Bool.or_eq_true, decide_eq_true_eq, Bool.and_eq_true, beq_iff_eq] at h1 ⊢
+        rcases h1 with h1 | h1
+        · omega
+        · right; exact ⟨e, by omega⟩
+    · simp only [FileId.lt, Bool.or_eq_true, decide_eq_true_eq]
+      left; omega
+
+
+theorem sorted_drop (l : List FileId) (hs : IdsSorted l) (k : Nat) : IdsSorted (l.drop k) :=
+  List.Pairwise.sublist (List.drop_sublist k l) hs
+
+theorem sorted_snoc (l : List FileId) (hs : IdsSorted l) (x : FileId) (hx : ∀ g ∈ l, g.lt x = true) : IdsSorted (l ++ [x]) := by
+  unfold IdsSorted
+  rw [List.pairwise_append]
+  refine ⟨hs, by simp, ?_⟩
+  intro a ha b hb
+  simp only [List.mem_singleton] at hb
+  rw [hb]; exact hx a ha
+
+theorem removeDeprecated_eq (fs : FS) (al : List AFile) (h : RepL fs al) (hs : IdsSorted (al.map (·.id))) (maxFiles : Nat) :
+    removeDeprecated fs maxFiles =
+      ((al.take (dropCount al.length maxFiles)).map (·.id)).flatMap (fun f => [Act.remove false f, Act.remove true f]) := by
+  unfold removeDeprecated dropCount
+  rw [listLogs_repL fs al h hs]
+  simp only [List.length_map]
+  split
+  · rw [List.map_take]
+  · simp
+
+/-- rolling to the next file: the oldest files beyond the limit go, a new empty file with a greater name is added -/
+theorem roll_spec (fs : FS) (al : List AFile) (h : RepL fs al) (hs : IdsSorted (al.map (·.id))) (maxFiles tsMs : Nat)
+    (hd : ∀ f ∈ al, f.id.day ≤ dayOfSec (tsMs / 1000)) :
+    RepL (fs.applyAll (rollActs fs maxFiles tsMs).2) (al.drop (dropCount al.length maxFiles) ++ [AFile.new (rollActs fs maxFiles tsMs).1]) ∧
+    IdsSorted ((al.drop (dropCount al.length maxFiles) ++ [AFile.new (rollActs fs maxFiles tsMs).1]).map (·.id)) ∧
+    (rollActs fs maxFiles tsMs).1.day = dayOfSec (tsMs / 1000) := by
+  obtain ⟨hday, hgt⟩ := nextFileId_gt fs al h hs (dayOfSec (tsMs / 1000)) hd
+  generalize hk : dropCount al.length maxFiles = k
+  have hact : (rollActs fs maxFiles tsMs) =
+      (nextFileId fs (dayOfSec (tsMs / 1000)),
+        ((al.take k).map (·.id)).flatMap (fun f => [Act.remove false f, Act.remove true f]) ++
+          [Act.create false (nextFileId fs (dayOfSec (tsMs / 1000))), Act.create true (nextFileId fs (dayOfSec (tsMs / 1000)))]) := by
+    unfold rollActs
+    rw [removeDeprecated_eq fs al h hs maxFiles, hk]
+  rw [hact]
+  simp only []
+  generalize nextFileId fs (dayOfSec (tsMs / 1000)) = nf at *
+  have hnotmem : nf ∉ (al.drop k).map (·.id) := by
+    intro hm
+    obtain ⟨f, hf, e⟩ := List.mem_map.mp hm
+    have := hgt f.id (List.mem_map.mpr ⟨f, List.mem_of_mem_drop hf, rfl⟩)
+    rw [e, FileId.lt_irrefl] at this
+    exact absurd this (by simp)
+  refine ⟨?_, ?_, hday⟩
+  · rw [applyAll_append, applyAll_removes]
+    simp only [FS.applyAll, List.foldl_cons, List.foldl_nil, FS.apply]
+    constructor
+    · simp only [h.logs, logDir]
+      rw [erase_take al (·.id) (·.log) hs k, Dir.create, erase_not_mem _ _ _ _ hnotmem]
+      simp [AFile.new, AFile.log, groupsBytes]
+    · simp only [h.idxs, idxDir]
+      rw [erase_take al (·.id) (·.idx) hs k, Dir.create, erase_not_mem _ _ _ _ hnotmem]
+      simp [AFile.new, AFile.idx, idxOf]
+  · rw [List.map_append]
+    apply sorted_snoc
+    · rw [List.map_drop]; exact sorted_drop _ hs k
+    · intro g hg
+      obtain ⟨f, hf, rfl⟩ := List.mem_map.mp hg
+      exact hgt f.id (List.mem_map.mpr ⟨f, List.mem_of_mem_drop hf, rfl⟩)
+
+
+theorem idxOf_snoc (off : Nat) (gs : List Group) (g : Group) :
+    idxOf off (gs ++ [g]) = idxOf off gs ++ encEntry (g.1, off + (groupsBytes gs).length) := by
+  induction gs generalizing off with
+  | nil => simp [idxOf, groupsBytes]
+  | cons a r ih =>
+    simp only [List.cons_append, idxOf, ih, List.append_assoc]
+    congr 3
+    simp [groupsBytes, Nat.add_assoc]
+
+theorem groupsBytes_snoc_empty (gs : List Group) (sec : Nat) : groupsBytes (gs ++ [(sec, [])]) = groupsBytes gs := by
+  simp [groupsBytes, groupBytes]
+
+theorem groupsBytes_extend (gi : List Group) (s : Nat) (l items : List MItem) :
+    groupsBytes (gi ++ [(s, l ++ items)]) = groupsBytes (gi ++ [(s, l)]) ++ items.flatMap lineBytes := by
+  simp [groupsBytes, groupBytes, List.flatMap_append]
+
+theorem dir_append_append (d : Dir) (f : FileId) (a b : Bytes) : (d.append f a).append f b = d.append f (a ++ b) := by
+  unfold Dir.append
+  rw [List.map_map]
+  apply List.map_congr_left
+  intro p _
+  by_cases h : p.1 = f <;> simp [h]
+
+theorem dir_append_nil (d : Dir) (f : FileId) : d.append f [] = d := by
+  unfold Dir.append
+  conv => rhs; rw [← List.map_id d]
+  apply List.map_congr_left
+  intro p _
+  by_cases h : p.1 = f
+  · simp only [h, if_true, List.append_nil, id]; rw [← h]
+  · simp [h]
+
+theorem applyAll_log_appends (fs : FS) (f : FileId) (bss : List Bytes) :
+    fs.applyAll (bss.map (fun bs => Act.append false f bs)) = { fs with logs := fs.logs.append f bss.flatten } := by
+  induction bss generalizing fs with
+  | nil => simp [FS.applyAll, dir_append_nil]
+  | cons a r ih =>
+    simp only [List.map_cons, FS.applyAll, List.foldl_cons, FS.apply] at ih ⊢
+    rw [ih]
+    simp [dir_append_append]
+
+
+theorem flatMap_drop_sublist {α β} (l : List α) (k : Nat) (f : α → List β) : ((l.drop k).flatMap f).Sublist (l.flatMap f) := by
+  conv => rhs; rw [← List.take_append_drop k l, List.flatMap_append]
+  exact List.sublist_append_right _ _
+
+/-- what the writer guarantees about the abstract files (everything that does not mention the directory) -/
+structure AOk (latest : Nat) (al : List AFile) (B N : Nat) : Prop where
+  live : ∀ f ∈ al, f.tail = [] ∧ f.idxTail = []
+  sorted : (al.flatMap (fun f => f.groups.map (·.1))).Pairwise (· ≤ ·)
+  secsLe : ∀ f ∈ al, ∀ g ∈ f.groups, g.1 ≤ latest
+  itemSecs : ∀ f ∈ al, ∀ g ∈ f.groups, ∀ it ∈ g.2, secOf it = g.1
+  good : ∀ f ∈ al, ∀ g ∈ f.groups, ∀ it ∈ g.2, GoodItem it
+  bytes : ∀ f ∈ al, (groupsBytes f.groups).length ≤ B
+  items : (al.flatMap AFile.items).length ≤ N
+
+theorem AOk.mono {L L' B B' N N' : Nat} {al : List AFile} (h : AOk L al B N) (hL : L ≤ L') (hB : B ≤ B') (hN : N ≤ N') : AOk L' al B' N' :=
+  ⟨h.live, h.sorted, fun f hf g hg => Nat.le_trans (h.secsLe f hf g hg) hL, h.itemSecs, h.good,
+   fun f hf => Nat.le_trans (h.bytes f hf) hB, Nat.le_trans h.items hN⟩
+
+theorem AOk.nil (L : Nat) : AOk L [] 0 0 :=
+  ⟨by simp, by simp, by simp, by simp, by simp, by simp, by simp⟩
+
+theorem AOk.drop_new {L B N : Nat} {al : List AFile} (h : AOk L al B N) (k : Nat) (id : FileId) : AOk L (al.drop k ++ [AFile.new id]) B N := by
+  have hsub : ∀ f ∈ al.drop k ++ [AFile.new id], f ∈ al ∨ f = AFile.new id := by
+    intro f hf
+    rcases List.mem_append.mp hf with h1 | h1
+    · exact Or.inl (List.mem_of_mem_drop h1)
+    · exact Or.inr (by simpa using h1)
+  refine ⟨?_, ?_, ?_, ?_, ?_, ?_, ?_⟩
+  · intro f hf; rcases hsub f hf with h1 | h1
+    · exact h.live f h1
+    · subst h1; exact ⟨rfl, rfl⟩
+  · have : (al.drop k ++ [AFile.new id]).flatMap (fun f => f.groups.map (·.1)) = (al.drop k).flatMap (fun f => f.groups.map (·.1)) := by
+      simp [AFile.new]
+    rw [this]
+    exact List.Pairwise.sublist (flatMap_drop_sublist al k _) h.sorted
+  · intro f hf g hg; rcases hsub f hf with h1 | h1
+    · exact h.secsLe f h1 g hg
+    · subst h1; simp [AFile.new] at hg
+  · intro f hf g hg; rcases hsub f hf with h1 | h1
+    · exact h.itemSecs f h1 g hg
+    · subst h1; simp [AFile.new] at hg
+  · intro f hf g hg; rcases hsub f hf with h1 | h1
+    · exact h.good f h1 g hg
+    · subst h1; simp [AFile.new] at hg
+  · intro f hf; rcases hsub f hf with h1 | h1
+    · exact h.bytes f h1
+    · subst h1; simp [AFile.new, groupsBytes]
+  · have : (al.drop k ++ [AFile.new id]).flatMap AFile.items = (al.drop k).flatMap AFile.items := by
+      simp [AFile.new, AFile.items, groupsItems]
+    rw [this]
+    have hsl : ((al.drop k).flatMap AFile.items).Sublist (al.flatMap AFile.items) := flatMap_drop_sublist al k _
+    exact Nat.le_trans hsl.length_le h.items
+
+
+theorem AOk.entry {L B N : Nat} {init : List AFile} {last : AFile} (h : AOk L (init ++ [last]) B N) (sec : Nat) (hL : L ≤ sec) :
+    AOk sec (init ++ [{ last with groups := last.groups ++ [(sec, [])] }]) B N := by
+  have hmem : ∀ f ∈ init, f ∈ init ++ [last] := fun f hf => by simp [hf]
+  have hlast : last ∈ init ++ [last] := by simp
+  refine ⟨?_, ?_, ?_, ?_, ?_, ?_, ?_⟩
+  · intro f hf
+    rcases List.mem_append.mp hf with h1 | h1
+    · exact h.live f (hmem f h1)
+    · simp only [List.mem_singleton] at h1; subst h1; exact h.live last hlast
+  · have e : (init ++ [({ last with groups := last.groups ++ [(sec, [])] } : AFile)]).flatMap (fun (f : AFile) => f.groups.map (·.1)) =
+        (init ++ [last]).flatMap (fun (f : AFile) => f.groups.map (·.1)) ++ [sec] := by simp
+    rw [e, List.pairwise_append]
+    refine ⟨h.sorted, by simp, ?_⟩
+    intro a ha b hb
+    simp only [List.mem_singleton] at hb; subst hb
+    obtain ⟨f, hf, hfa⟩ := List.mem_flatMap.mp ha
+    obtain ⟨g, hg, rfl⟩ := List.mem_map.mp hfa
+    exact Nat.le_trans (h.secsLe f hf g hg) hL
+  · intro f hf g hg
+    rcases List.mem_append.mp hf with h1 | h1
+    · exact Nat.le_trans (h.secsLe f (hmem f h1) g hg) hL
+    · simp only [List.mem_singleton] at h1; subst h1
+      rcases List.mem_append.mp hg with h2 | h2
+      · exact Nat.le_trans (h.secsLe last hlast g h2) hL
+      · simp only [List.mem_singleton] at h2; subst h2; exact Nat.le_refl _
+  · intro f hf g hg
+    rcases List.mem_append.mp hf with h1 | h1
+    · exact h.itemSecs f (hmem f h1) g hg
+    · simp only [List.mem_singleton] at h1; subst h1
+      rcases List.mem_append.mp hg with h2 | h2
+      · exact h.itemSecs last hlast g h2
+      · simp only [List.mem_singleton] at h2; subst h2; intro it hit; simp at hit
+  · intro f hf g hg
+    rcases List.mem_append.mp hf with h1 | h1
+    · exact h.good f (hmem f h1) g hg
+    · simp only [List.mem_singleton] at h1; subst h1
+      rcases List.mem_append.mp hg with h2 | h2
+      · exact h.good last hlast g h2
+      · simp only [List.mem_singleton] at h2; subst h2; intro it hit; simp at hit
+  · intro f hf
+    rcases List.mem_append.mp hf with h1 | h1
+    · exact h.bytes f (hmem f h1)
+    · simp only [List.mem_singleton] at h1; subst h1
+      simp only [groupsBytes_snoc_empty]; exact h.bytes last hlast
+  · have e : (init ++ [{ last with groups := last.groups ++ [(sec, [])] }]).flatMap AFile.items = (init ++ [last]).flatMap AFile.items := by
+      simp [AFile.items, groupsItems]
+    rw [e]; exact h.items
+
+theorem AOk.lines {L B N : Nat} {init : List AFile} {last : AFile} {gi : List Group} {gl : Group} (h : AOk L (init ++ [last]) B N)
+    (hg : last.groups = gi ++ [gl]) (items : List MItem) (hgood : ∀ it ∈ items, GoodItem it) (hsec : ∀ it ∈ items, secOf it = gl.1) :
+    AOk L (init ++ [{ last with groups := gi ++ [(gl.1, gl.2 ++ items)] }]) (B + (items.flatMap lineBytes).length) (N + items.length) := by
+  have hmem : ∀ f ∈ init, f ∈ init ++ [last] := fun f hf => by simp [hf]
+  have hlast : last ∈ init ++ [last] := by simp
+  have hgl : gl ∈ last.groups := by rw [hg]; simp
+  have hgi : ∀ g ∈ gi, g ∈ last.groups := fun g hgg => by rw [hg]; simp [hgg]
+  refine ⟨?_, ?_, ?_, ?_, ?_, ?_, ?_⟩
+  · intro f hf
+    rcases List.mem_append.mp hf with h1 | h1
+    · exact h.live f (hmem f h1)
+    · simp only [List.mem_singleton] at h1; subst h1; exact h.live last hlast
+  · have e : (init ++ [({ last with groups := gi ++ [(gl.1, gl.2 ++ items)] } : AFile)]).flatMap (fun (f : AFile) => f.groups.map (·.1)) =
+        (init ++ [last]).flatMap (fun (f : AFile) => f.groups.map (·.1)) := by simp [hg]
+    rw [e]; exact h.sorted
+  · intro f hf g hgg
+    rcases List.mem_append.mp hf with h1 | h1
+    · exact h.secsLe f (hmem f h1) g hgg
+    · simp only [List.mem_singleton] at h1; subst h1
+      rcases List.mem_append.mp hgg with h2 | h2
+      · exact h.secsLe last hlast g (hgi g h2)
+      · simp only [List.mem_singleton] at h2; subst h2; exact h.secsLe last hlast gl hgl
+  · intro f hf g hgg
+    rcases List.mem_append.mp hf with h1 | h1
+    · exact h.itemSecs f (hmem f h1) g hgg
+    · simp only [List.mem_singleton] at h1; subst h1
+      rcases List.mem_append.mp hgg with h2 | h2
+      · exact h.itemSecs last hlast g (hgi g h2)
+      · simp only [List.mem_singleton] at h2; subst h2
+        intro it hit
+        rcases List.mem_append.mp hit with h3 | h3
+        · exact h.itemSecs last hlast gl hgl it h3
+        · exact hsec it h3
+  · intro f hf g hgg
+    rcases List.mem_append.mp hf with h1 | h1
+    · exact h.good f (hmem f h1) g hgg
+    · simp only [List.mem_singleton] at h1; subst h1
+      rcases List.mem_append.mp hgg with h2 | h2
+      · exact h.good last hlast g (hgi g h2)
+      · simp only [List.mem_singleton] at h2; subst h2
+        intro it hit
+        rcases List.mem_append.mp hit with h3 | h3
+        · exact h.good last hlast gl hgl it h3
+        · exact hgood it h3
+  · intro f hf
+    rcases List.mem_append.mp hf with h1 | h1
+    · exact Nat.le_trans (h.bytes f (hmem f h1)) (Nat.le_add_right _ _)
+    · simp only [List.mem_singleton] at h1; subst h1
+      have := h.bytes last hlast
+      simp only [groupsBytes_extend, List.length_append]
+      rw [hg] at this
+      have e : (gi ++ [(gl.1, gl.2)]) = gi ++ [gl] := rfl
+      rw [e]; omega
+  · have e : ((init ++ [{ last with groups := gi ++ [(gl.1, gl.2 ++ items)] }]).flatMap AFile.items).length =
+        ((init ++ [last]).flatMap AFile.items).length + items.length := by
+      simp [AFile.items, groupsItems, hg]; omega
+    rw [e]; have := h.items; omega
+
+
+theorem logDir_snoc (init : List AFile) (last : AFile) : logDir (init ++ [last]) = init.map (fun f => (f.id, f.log)) ++ [(last.id, last.log)] := by
+  simp [logDir]
+theorem idxDir_snoc (init : List AFile) (last : AFile) : idxDir (init ++ [last]) = init.map (fun f => (f.id, f.idx)) ++ [(last.id, last.idx)] := by
+  simp [idxDir]
+
+theorem repL_entry (fs : FS) (init : List AFile) (last : AFile) (h : RepL fs (init ++ [last])) (hs : IdsSorted ((init ++ [last]).map (·.id)))
+    (hlive : last.tail = [] ∧ last.idxTail = []) (sec : Nat) :
+    RepL (fs.applyAll [Act.append true last.id (be64 sec), Act.append true last.id (be64 last.log.length)])
+      (init ++ [{ last with groups := last.groups ++ [(sec, [])] }]) := by
+  constructor
+  · simp only [FS.applyAll, List.foldl_cons, List.foldl_nil, FS.apply, h.logs, logDir_snoc]
+    simp [AFile.log, groupsBytes_snoc_empty]
+  · simp only [FS.applyAll, List.foldl_cons, List.foldl_nil, FS.apply, h.idxs, dir_append_append, idxDir_snoc]
+    rw [append_last init last (·.id) (·.idx) hs]
+    simp [AFile.idx, AFile.log, hlive.1, hlive.2, idxOf_snoc, encEntry]
+
+theorem repL_lines (fs : FS) (init : List AFile) (last : AFile) (gi : List Group) (gl : Group) (h : RepL fs (init ++ [last]))
+    (hs : IdsSorted ((init ++ [last]).map (·.id))) (hg : last.groups = gi ++ [gl]) (hlive : last.tail = []) (items : List MItem) :
+    RepL (fs.applyAll (items.map (fun it => Act.append false last.id (lineBytes it))))
+      (init ++ [{ last with groups := gi ++ [(gl.1, gl.2 ++ items)] }]) := by
+  have e : items.map (fun it => Act.append false last.id (lineBytes it)) = (items.map lineBytes).map (fun bs => Act.append false last.id bs) := by
+    simp [List.map_map]
+  rw [e, applyAll_log_appends]
+  constructor
+  · simp only [h.logs, logDir_snoc]
+    rw [append_last init last (·.id) (·.log) hs]
+    have : (items.map lineBytes).flatten = items.flatMap lineBytes := by simp [List.flatMap]
+    simp only [this, AFile.log, groupsBytes_extend, hg, List.append_assoc]
+    have e2 : (gi ++ [(gl.1, gl.2)]) = gi ++ [gl] := rfl
+    rw [e2]
+    simp [hlive]
+  · simp only [h.idxs, idxDir_snoc]
+    simp [AFile.idx, hg, idxOf_snoc]
+
+
+/-- the writer's invariant: the directory is, file for file, the abstract log `al`; `B`/`N` bound the bytes of a file and the
+number of items (ghost counters) -/
+structure WInv (w : Writer) (fs : FS) (al : List AFile) (B N : Nat) : Prop where
+  rep : RepL fs al
+  ids : IdsSorted (al.map (·.id))
+  cur : ∃ init last, al = init ++ [last] ∧ w.cur = some last.id
+  days : ∀ f ∈ al, f.id.day ≤ dayOfSec w.latest
+  aok : AOk w.latest al B N
+  lastSec : ∀ init last, al = init ++ [last] → ∀ gi gl, last.groups = gi ++ [gl] → gl.1 = w.latest
+  count : al.length ≤ w.maxFiles ∧ 0 < w.maxFiles
+
+theorem length_drop_new (al : List AFile) (m : Nat) (hm : 0 < m) (x : AFile) : (al.drop (dropCount al.length m) ++ [x]).length ≤ m := by
+  simp only [List.length_append, List.length_drop, List.length_singleton, dropCount]
+  split <;> omega
+
+theorem new_inv (maxSize maxFiles nowMs : Nat) (w : Writer) (acts : List Act)
+    (h : Writer.new {} maxSize maxFiles nowMs = some (w, acts)) :
+    ∃ al, WInv w (({} : FS).applyAll acts) al 0 0 ∧ al.flatMap AFile.items = [] := by
+  unfold Writer.new at h
+  split at h
+  · simp at h
+  · rename_i hz
+    simp only [Option.some.injEq, Prod.mk.injEq] at h
+    obtain ⟨hw, ha⟩ := h
+    have hrep0 : RepL ({} : FS) [] := ⟨rfl, rfl⟩
+    have hr := roll_spec {} [] hrep0 (by simp [IdsSorted]) maxFiles nowMs (by simp)
+    simp only [List.drop_nil, List.nil_append] at hr
+    refine ⟨[AFile.new (rollActs {} maxFiles nowMs).1], ?_, by simp [AFile.new, AFile.items, groupsItems]⟩
+    subst hw ha
+    refine ⟨hr.1, hr.2.1, ⟨[], AFile.new (rollActs {} maxFiles nowMs).1, by simp, rfl⟩, ?_, ?_, ?_, ?_⟩
+    · intro f hf; simp only [List.mem_singleton] at hf; subst hf; simp only [AFile.new]; rw [hr.2.2]; exact Nat.le_refl _
+    · have := (AOk.nil (nowMs / 1000)).drop_new 0 (rollActs {} maxFiles nowMs).1
+      simpa using this
+    · intro init last hal gi gl hg
+      have : last = AFile.new (rollActs {} maxFiles nowMs).1 := by
+        have := congrArg List.getLast? hal
+        simp at this; exact this.symm
+      subst this
+      simp [AFile.new] at hg
+    · simp only [List.length_singleton]; omega
+
+
+theorem flatMap_drop_eq {α β} (l : List α) (k : Nat) (f : α → List β) :
+    (l.drop k).flatMap f = (l.flatMap f).drop ((l.take k).flatMap f).length := by
+  have h : l.flatMap f = (l.take k).flatMap f ++ (l.drop k).flatMap f := by
+    rw [← List.flatMap_append, List.take_append_drop]
+  rw [h, List.drop_left]
+
+theorem snoc_inj {α} {a b : List α} {x y : α} (h : a ++ [x] = b ++ [y]) : a = b ∧ x = y := by
+  have := List.append_inj' h rfl
+  exact ⟨this.1, by simpa using this.2⟩
+
+theorem get?_last_log (fs : FS) (init : List AFile) (last : AFile) (h : RepL fs (init ++ [last])) (hs : IdsSorted ((init ++ [last]).map (·.id))) :
+    fs.logs.get? last.id = some last.log := by
+  rw [h.logs, logDir]
+  exact get?_map (init ++ [last]) (·.id) (·.log) hs last (by simp)
+
+theorem lineBytes_ne_nil (it : MItem) : lineBytes it ≠ [] := by simp [lineBytes]
+
+/-- the second half of `write`: index entry if needed, lines, roll-over by size -/
+theorem writeTail_inv (w : Writer) (fs1 : FS) (init1 : List AFile) (last1 : AFile) (B N ts : Nat) (items : List MItem)
+    (hrep : RepL fs1 (init1 ++ [last1])) (hids : IdsSorted ((init1 ++ [last1]).map (·.id)))
+    (hdays : ∀ f ∈ init1 ++ [last1], f.id.day ≤ dayOfSec (ts / 1000))
+    (haok : AOk w.latest (init1 ++ [last1]) B N) (hsec : w.latest ≤ ts / 1000)
+    (hcount : (init1 ++ [last1]).length ≤ w.maxFiles ∧ 0 < w.maxFiles)
+    (hlast : ts / 1000 = w.latest → ∀ gi gl, last1.groups = gi ++ [gl] → gl.1 = w.latest)
+    (hgood : ∀ it ∈ items, GoodItem { it with ts := ts }) :
+    ∃ al', WInv (w.writeTail fs1 last1.id ts items).1 (fs1.applyAll (w.writeTail fs1 last1.id ts items).2) al'
+      (B + ((items.map (fun it => { it with ts := ts })).flatMap lineBytes).length) (N + items.length) ∧
+      ∃ k, al'.flatMap AFile.items = ((init1 ++ [last1]).flatMap AFile.items ++ items.map (fun (it : MItem) => ({ it with ts := ts } : MItem))).drop k := by
+  have hlive := haok.live last1 (by simp)
+  have hpos : ((fs1.logs.get? last1.id).getD []).length = last1.log.length := by
+    rw [get?_last_log fs1 init1 last1 hrep hids]; rfl
+  -- phase 2: the index entry
+  obtain ⟨last2, gi, gl, hid2, hit2, hg2, hgl, hrep2, haok2⟩ :
+      ∃ last2 : AFile, ∃ gi gl, last2.id = last1.id ∧ last2.items = last1.items ∧ last2.groups = gi ++ [gl] ∧ gl.1 = ts / 1000 ∧
+        RepL (fs1.applyAll (if ts / 1000 > w.latest ∨ last1.log.length = 0 then
+            [Act.append true last1.id (be64 (ts / 1000)), Act.append true last1.id (be64 last1.log.length)] else [])) (init1 ++ [last2]) ∧
+        AOk (ts / 1000) (init1 ++ [last2]) B N := by
+    by_cases hc : ts / 1000 > w.latest ∨ last1.log.length = 0
+    · simp only [hc, if_true]
+      exact ⟨{ last1 with groups := last1.groups ++ [(ts / 1000, [])] }, last1.groups, (ts / 1000, []), rfl,
+        by simp [AFile.items, groupsItems], rfl, rfl,
+        repL_entry fs1 init1 last1 hrep hids hlive (ts / 1000), haok.entry (ts / 1000) hsec⟩
+    · simp only [hc, if_false]
+      have hc' : ts / 1000 = w.latest ∧ last1.log.length ≠ 0 := by omega
+      have hne : last1.groups ≠ [] := by
+        intro e
+        apply hc'.2
+        simp [AFile.log, e, hlive.1, groupsBytes]
+      obtain ⟨gi, gl, hg⟩ : ∃ gi gl, last1.groups = gi ++ [gl] :=
+        ⟨last1.groups.dropLast, last1.groups.getLast hne, (List.dropLast_concat_getLast hne).symm⟩
+      refine ⟨last1, gi, gl, rfl, rfl, hg, ?_, by simpa [FS.applyAll] using hrep, haok.mono hsec (Nat.le_refl _) (Nat.le_refl _)⟩
+      rw [hlast hc'.1 gi gl hg, hc'.1]
+  have hids2 : IdsSorted ((init1 ++ [last2]).map (·.id)) := by
+    simpa [hid2] using hids
+  have hlive2 := haok2.live last2 (by simp)
+  -- phase 3: the lines
+  obtain ⟨items', hitems'⟩ : ∃ x, x = items.map (fun it => ({ it with ts := ts } : MItem)) := ⟨_, rfl⟩
+  have hlen' : items'.length = items.length := by rw [hitems']; simp
+  rw [← hitems', ← hlen']
+  have hgood' : ∀ it ∈ items', GoodItem it := by
+    intro it hit
+    rw [hitems'] at hit
+    obtain ⟨x, hx, rfl⟩ := List.mem_map.mp hit
+    exact hgood x hx
+  have hsec' : ∀ it ∈ items', secOf it = gl.1 := by
+    intro it hit
+    rw [hitems'] at hit
+    obtain ⟨x, hx, rfl⟩ := List.mem_map.mp hit
+    rw [hgl]; rfl
+  obtain ⟨last3, hlast3⟩ : ∃ x : AFile, x = { last2 with groups := gi ++ [(gl.1, gl.2 ++ items')] } := ⟨_, rfl⟩
+  have hrep3 := repL_lines _ init1 last2 gi gl hrep2 hids2 hg2 hlive2.1 items'
+  have haok3 := haok2.lines hg2 items' hgood' hsec'
+  rw [← hlast3] at hrep3 haok3
+  have hid3 : last3.id = last1.id := by rw [hlast3]; exact hid2
+  have hitems3 : (init1 ++ [last3]).flatMap AFile.items = (init1 ++ [last1]).flatMap AFile.items ++ items' := by
+    have e1 : last3.items = last2.items ++ items' := by
+      rw [hlast3]; simp [AFile.items, groupsItems, hg2]
+    simp only [List.flatMap_append, List.flatMap_cons, List.flatMap_nil, List.append_nil, e1, hit2, List.append_assoc]
+  have hids3 : IdsSorted ((init1 ++ [last3]).map (·.id)) := by
+    simpa [hlast3] using hids2
+  have hacts3 : items.map (fun it => Act.append false last1.id (lineBytes { it with ts := ts })) =
+      items'.map (fun it => Act.append false last2.id (lineBytes it)) := by
+    simp [hitems', List.map_map, hid2]
+  have hdays3 : ∀ f ∈ init1 ++ [last3], f.id.day ≤ dayOfSec (ts / 1000) := by
+    intro f hf
+    rcases List.mem_append.mp hf with h1 | h1
+    · exact hdays f (by simp [h1])
+    · simp only [List.mem_singleton] at h1; subst h1
+      have := hdays last1 (by simp)
+      simpa [hid3] using this
+  have hlastSec3 : ∀ gi' gl', last3.groups = gi' ++ [gl'] → gl'.1 = ts / 1000 := by
+    intro gi' gl' hg'
+    rw [hlast3] at hg'
+    have := snoc_inj hg'
+    rw [← this.2]; exact hgl
+  -- the model's computation
+  unfold Writer.writeTail
+  simp only [hpos]
+  rw [applyAll_append, applyAll_append, ← hitems'] at *
+  rw [hacts3]
+  generalize hfs3 : (fs1.applyAll (if ts / 1000 > w.latest ∨ last1.log.length = 0 then
+            [Act.append true last1.id (be64 (ts / 1000)), Act.append true last1.id (be64 last1.log.length)] else [])).applyAll
+            (items'.map (fun it => Act.append false last2.id (lineBytes it))) = fs3 at hrep3 ⊢
+  have hmax : max w.latest (ts / 1000) = ts / 1000 := Nat.max_eq_right hsec
+  -- phase 4: roll-over by size
+  by_cases hroll : ((fs3.logs.get? last1.id).getD []).length ≥ w.maxSize
+  · simp only [hroll, if_true]
+    have hr := roll_spec fs3 (init1 ++ [last3]) hrep3 hids3 w.maxFiles ts hdays3
+    refine ⟨_, ⟨hr.1, hr.2.1, ⟨_, _, rfl, rfl⟩, ?_, ?_, ?_, ?_⟩, ?_⟩
+    rotate_right
+    · refine ⟨(((init1 ++ [last3]).take (dropCount (init1 ++ [last3]).length w.maxFiles)).flatMap AFile.items).length, ?_⟩
+      rw [← hitems3, ← flatMap_drop_eq]
+      simp [AFile.new, AFile.items, groupsItems]
+    · intro f hf
+      simp only [hmax]
+      rcases List.mem_append.mp hf with h1 | h1
+      · exact hdays3 f (List.mem_of_mem_drop h1)
+      · simp only [List.mem_singleton] at h1; subst h1; simp only [AFile.new]; rw [hr.2.2]; exact Nat.le_refl _
+    · simp only [hmax]; exact haok3.drop_new _ _
+    · intro init last hal gi' gl' hg'
+      have := (snoc_inj hal).2
+      rw [← this] at hg'
+      simp [AFile.new] at hg'
+    · exact ⟨length_drop_new _ _ hcount.2 _, hcount.2⟩
+  · simp only [hroll, if_false, FS.applyAll, List.foldl_nil]
+    refine ⟨init1 ++ [last3], ⟨hrep3, hids3, ⟨init1, last3, rfl, by simp [hid3]⟩, ?_, ?_, ?_, ?_⟩, ⟨0, by rw [hitems3]; rfl⟩⟩
+    · simpa only [hmax] using hdays3
+    · simpa only [hmax] using haok3
+    · intro init last hal gi' gl' hg'
+      have := (snoc_inj hal).2
+      rw [← this] at hg'
+      simp only [hmax]
+      exact hlastSec3 gi' gl' hg'
+    · have : (init1 ++ [last3]).length = (init1 ++ [last1]).length := by simp
+      rw [this]; exact hcount
+
+
+theorem dayOfSec_mono {a b : Nat} (h : a ≤ b) : dayOfSec a ≤ dayOfSec b := by
+  unfold dayOfSec; exact Nat.div_le_div_right h
+
+/-- the items a `write` call adds to the log (none when the call is refused or ignored) -/
+def accepted (w : Writer) (ts : Nat) (items : List MItem) : List MItem :=
+  if items.isEmpty = true ∨ ts = 0 ∨ w.cur = none ∨ ts / 1000 < w.latest then []
+  else items.map (fun (it : MItem) => ({ it with ts := ts } : MItem))
+
+theorem drop_append_drop {α} (X Y : List α) (a k : Nat) (ha : a ≤ X.length) : (X.drop a ++ Y).drop k = (X ++ Y).drop (a + k) := by
+  rw [← List.drop_drop, List.drop_append_of_le_length ha]
+
+/-- **one `write` keeps the invariant**, and the log then holds what it held before plus the accepted items, minus the files
+removed by retention (a prefix) -/
+theorem write_inv (w : Writer) (fs : FS) (al : List AFile) (B N ts : Nat) (items : List MItem) (h : WInv w fs al B N)
+    (hgood : ∀ it ∈ items, GoodItem { it with ts := ts }) :
+    ∃ al', WInv (w.write fs ts items).1 (fs.applyAll (w.write fs ts items).2.1) al'
+      (B + ((items.map (fun it => { it with ts := ts })).flatMap lineBytes).length) (N + items.length) ∧
+      ∃ k, al'.flatMap AFile.items = (al.flatMap AFile.items ++ accepted w ts items).drop k := by
+  have hstay : WInv w fs al (B + ((items.map (fun it => { it with ts := ts })).flatMap lineBytes).length) (N + items.length) :=
+    ⟨h.rep, h.ids, h.cur, h.days, h.aok.mono (Nat.le_refl _) (Nat.le_add_right _ _) (Nat.le_add_right _ _), h.lastSec, h.count⟩
+  obtain ⟨init, last, hal, hcur⟩ := h.cur
+  unfold Writer.write accepted
+  by_cases hemp : items.isEmpty = true
+  · simp only [hemp, if_true, true_or]; exact ⟨al, by simpa [FS.applyAll] using hstay, 0, by simp⟩
+  simp only [hemp, Bool.false_eq_true, if_false, false_or]
+  by_cases hts : ts = 0
+  · simp only [hts, if_true, true_or]; exact ⟨al, by simpa [FS.applyAll, hts] using hstay, 0, by simp⟩
+  simp only [hts, if_false, hcur, false_or]
+  by_cases hold : ts / 1000 < w.latest
+  · simp only [hold, if_true, or_true]; exact ⟨al, by simpa [FS.applyAll] using hstay, 0, by simp⟩
+  simp only [hold, if_false, reduceCtorEq, or_self]
+  have hsec : w.latest ≤ ts / 1000 := by omega
+  rw [applyAll_append]
+  by_cases hroll : ts / 1000 > w.latest ∧ dayOfSec (ts / 1000) > dayOfSec w.latest
+  · simp only [hroll, and_self, if_true]
+    have hdaysAl : ∀ f ∈ al, f.id.day ≤ dayOfSec (ts / 1000) := fun f hf => Nat.le_trans (h.days f hf) (dayOfSec_mono hsec)
+    have hr := roll_spec fs al h.rep h.ids w.maxFiles ts hdaysAl
+    have haok1 := h.aok.drop_new (dropCount al.length w.maxFiles) (rollActs fs w.maxFiles ts).1
+    obtain ⟨al', hinv, k, hk⟩ := writeTail_inv w (fs.applyAll (rollActs fs w.maxFiles ts).2) (al.drop (dropCount al.length w.maxFiles))
+      (AFile.new (rollActs fs w.maxFiles ts).1) B N ts items hr.1 hr.2.1
+      (by
+        intro f hf
+        rcases List.mem_append.mp hf with h1 | h1
+        · exact hdaysAl f (List.mem_of_mem_drop h1)
+        · simp only [List.mem_singleton] at h1; subst h1; simp only [AFile.new]; rw [hr.2.2]; exact Nat.le_refl _)
+      haok1 hsec ⟨length_drop_new _ _ h.count.2 _, h.count.2⟩
+      (by intro e; omega) hgood
+    refine ⟨al', by simpa [AFile.new] using hinv, ((al.take (dropCount al.length w.maxFiles)).flatMap AFile.items).length + k, ?_⟩
+    rw [hk]
+    have e1 : (al.drop (dropCount al.length w.maxFiles) ++ [AFile.new (rollActs fs w.maxFiles ts).1]).flatMap AFile.items =
+        (al.flatMap AFile.items).drop ((al.take (dropCount al.length w.maxFiles)).flatMap AFile.items).length := by
+      rw [← flatMap_drop_eq]; simp [AFile.new, AFile.items, groupsItems]
+    rw [e1]
+    apply drop_append_drop
+    have h2 : al.flatMap AFile.items = (al.take (dropCount al.length w.maxFiles)).flatMap AFile.items ++ (al.drop (dropCount al.length w.maxFiles)).flatMap AFile.items := by
+      rw [← List.flatMap_append, List.take_append_drop]
+    rw [h2, List.length_append]; omega
+  · simp only [hroll, if_false]
+    rw [hal] at h ⊢
+    obtain ⟨al', hinv, k, hk⟩ := writeTail_inv w fs init last B N ts items h.rep h.ids
+      (fun f hf => Nat.le_trans (h.days f hf) (dayOfSec_mono hsec)) h.aok hsec h.count
+      (fun _ gi gl hg => h.lastSec init last rfl gi gl hg) hgood
+    exact ⟨al', by simpa [FS.applyAll] using hinv, k, hk⟩
+
+
+/-- a write history: `(ts, items)` per call. Result: the writer, the directory, and the items accepted on the way -/
+def runWrites (w : Writer) (fs : FS) : List (Nat × List MItem) → Writer × FS × List MItem
+  | [] => (w, fs, [])
+  | (ts, items) :: rest =>
+    let r := w.write fs ts items
+    let t := runWrites r.1 (fs.applyAll r.2.1) rest
+    (t.1, t.2.1, accepted w ts items ++ t.2.2)
+
+def stamp (ts : Nat) (items : List MItem) : List MItem := items.map (fun (it : MItem) => ({ it with ts := ts } : MItem))
+
+def histBytes : List (Nat × List MItem) → Nat
+  | [] => 0
+  | (ts, items) :: rest => ((stamp ts items).flatMap lineBytes).length + histBytes rest
+
+def histItems : List (Nat × List MItem) → Nat
+  | [] => 0
+  | (_, items) :: rest => items.length + histItems rest
+
+theorem drop_min {α} (L : List α) (k : Nat) : L.drop k = L.drop (min k L.length) := by
+  by_cases h : k ≤ L.length
+  · rw [Nat.min_eq_left h]
+  · rw [Nat.min_eq_right (by omega), List.drop_eq_nil_of_le (by omega), List.drop_eq_nil_of_le (Nat.le_refl _)]
+
+theorem run_inv (hist : List (Nat × List MItem)) (w : Writer) (fs : FS) (al : List AFile) (B N : Nat) (h : WInv w fs al B N)
+    (hgood : ∀ p ∈ hist, ∀ it ∈ p.2, GoodItem { it with ts := p.1 }) :
+    ∃ al', WInv (runWrites w fs hist).1 (runWrites w fs hist).2.1 al' (B + histBytes hist) (N + histItems hist) ∧
+      ∃ k, al'.flatMap AFile.items = (al.flatMap AFile.items ++ (runWrites w fs hist).2.2).drop k := by
+  induction hist generalizing w fs al B N with
+  | nil => exact ⟨al, by simpa [runWrites, histBytes, histItems] using h, 0, by simp [runWrites]⟩
+  | cons p rest ih =>
+    obtain ⟨ts, items⟩ := p
+    obtain ⟨al1, hinv1, k1, hk1⟩ := write_inv w fs al B N ts items h (hgood (ts, items) (by simp))
+    obtain ⟨al2, hinv2, k2, hk2⟩ := ih (w.write fs ts items).1 (fs.applyAll (w.write fs ts items).2.1) al1 _ _ hinv1
+      (fun p hp => hgood p (by simp [hp]))
+    refine ⟨al2, ?_, min k1 (al.flatMap AFile.items ++ accepted w ts items).length + k2, ?_⟩
+    · simp only [runWrites, histBytes, histItems, stamp]
+      have e1 : B + (((items.map (fun (it : MItem) => ({ it with ts := ts } : MItem))).flatMap lineBytes).length + histBytes rest) =
+          B + ((items.map (fun (it : MItem) => ({ it with ts := ts } : MItem))).flatMap lineBytes).length + histBytes rest := by omega
+      have e2 : N + (items.length + histItems rest) = N + items.length + histItems rest := by omega
+      rw [e1, e2]; exact hinv2
+    · simp only [runWrites]
+      rw [hk2, hk1, drop_min (al.flatMap AFile.items ++ accepted w ts items) k1, ← List.append_assoc]
+      exact drop_append_drop _ _ _ _ (Nat.min_le_right _ _)
+
+
+theorem write_latest_le (w : Writer) (fs : FS) (ts : Nat) (items : List MItem) (M : Nat) (h1 : w.latest ≤ M) (h2 : ts / 1000 ≤ M) :
+    (w.write fs ts items).1.latest ≤ M := by
+  unfold Writer.write
+  split
+  · exact h1
+  · split
+    · exact h1
+    · split
+      · exact h1
+      · simp only []
+        split
+        · exact h1
+        · simp only [Writer.writeTail]
+          exact Nat.max_le.mpr ⟨h1, h2⟩
+
+theorem run_latest_le (hist : List (Nat × List MItem)) (w : Writer) (fs : FS) (M : Nat) (h1 : w.latest ≤ M) (h2 : ∀ p ∈ hist, p.1 / 1000 ≤ M) :
+    (runWrites w fs hist).1.latest ≤ M := by
+  induction hist generalizing w fs with
+  | nil => exact h1
+  | cons p rest ih =>
+    obtain ⟨ts, items⟩ := p
+    simp only [runWrites]
+    exact ih _ _ (write_latest_le w fs ts items M h1 (h2 (ts, items) (by simp))) (fun p hp => h2 p (by simp [hp]))
+
+/-- the writer's invariant gives what the search theorem needs -/
+theorem winv_rep_wf (w : Writer) (fs : FS) (al : List AFile) (B N : Nat) (h : WInv w fs al B N)
+    (hB : B < 18446744073709551616) (hN : N < MAX_ITEM_AMOUNT) (hL : w.latest < 18446744073709551616) :
+    Rep fs al ∧ WF al ∧ ∀ f ∈ al, f.tail = [] ∧ f.idxTail = [] := by
+  refine ⟨⟨listLogs_repL fs al h.rep h.ids, ?_, ?_⟩, ⟨h.aok.sorted, h.aok.itemSecs, h.aok.good, ?_, ?_, Nat.lt_of_le_of_lt h.aok.items hN⟩, h.aok.live⟩
+  · intro f hf
+    rw [h.rep.logs, logDir]
+    exact get?_map al (·.id) (·.log) h.ids f hf
+  · intro f hf
+    left
+    rw [h.rep.idxs, idxDir]
+    exact get?_map al (·.id) (·.idx) h.ids f hf
+  · intro f hf
+    exact ⟨fun g hg => Nat.lt_of_le_of_lt (h.aok.secsLe f hf g hg) hL, Nat.lt_of_le_of_lt (h.aok.bytes f hf) hB⟩
+  · intro f hf
+    have := h.aok.live f hf
+    rw [this.1, this.2]; simp
+
 end Sentinel.MLog
